@@ -230,7 +230,7 @@ def main(argv=None):
     rc = 0
     out_lines = []
     seen_mechs = set()
-    rdir = os.path.join(VERIF, "replays", pid)
+    rdir = os.path.join(os.environ.get("VERIF_REPLAY_DIR") or os.path.join(VERIF, "replays"), pid)
     if os.path.isdir(rdir):
         for fn in os.listdir(rdir):
             if fn.startswith(f"{tier}-{seed}-"):
